@@ -40,7 +40,7 @@ cXmlCutThorough == cXmlCut \cup XmlCutProfilesFor(<<4, 4, 5>>, <<0, 1, 0, 1>>)
 
 (* ---------------------------- JSON by construction ---------------------------- *)
 Tok(t) == CASE t = "a" -> <<"a">> [] t = "sp" -> <<" ">> [] t = "lb" -> <<"{">> [] t = "rb" -> <<"}">>
-            [] t = "eq" -> <<"\\", "\"">> [] t = "eb" -> <<"\\", "\\">>
+            [] t = "eq" -> <<"\\", "\"">> [] t = "eb" -> <<"\\", "\\">> [] t = "hb" -> <<"~">>       \* (~: one byte above 0x7f)
 Toks == {"a", "sp", "lb", "rb", "eq", "eb"}
 RECURSIVE FlatT(_)
 FlatT(ts) == IF ts = <<>> THEN <<>> ELSE Tok(Head(ts)) \o FlatT(Tail(ts))
@@ -91,13 +91,16 @@ cJsonEmpty == {MkJson(<<OE, O(<<"a">>, FALSE)>>, <<<<>>, g, <<>>>>) : g \in JGap
               \cup {MkJson(<<O(<<"a">>, FALSE), OE, O(<<"lb">>, FALSE)>>, <<<<>>, <<"\n">>, <<>>, <<"\n">>>>)}
 \* three-token contents, tight form, no gaps: e.g. an escaped backslash, an escaped quote, then a brace
 cJsonThree == {MkJson(<<O(c, FALSE)>>, <<<<>>, <<>>>>) : c \in [1..3 -> Toks]}
-cJsonQuick == {p \in cJsonOne : p.total <= 13} \cup {p \in cJsonTwo : p.total <= 22 /\ p.id.gl[2] = 0} \cup {p \in cJsonEmpty : p.total <= 12}
+\* content with a byte above 0x7f (alone, before a closing quote, after an escaped backslash)
+cJsonHigh == {MkJson(<<O(c, FALSE)>>, <<<<>>, <<"\n">>>>) : c \in {<<"hb">>, <<"a", "hb">>, <<"eb", "hb">>}}
+             \cup {MkJson(<<O(<<"hb">>, FALSE), O(<<"hb", "a">>, FALSE)>>, <<<<>>, <<"\n">>, <<>>>>)}
+cJsonQuick == cJsonHigh \cup {p \in cJsonOne : p.total <= 13} \cup {p \in cJsonTwo : p.total <= 22 /\ p.id.gl[2] = 0} \cup {p \in cJsonEmpty : p.total <= 12}
               \cup {p \in cJsonThree : \E i \in 1..(p.total - 1) : p.chars[i] = "\\" /\ p.chars[i+1] = "\\"}
-cJsonHandler == {p \in cJsonTwo : p.total <= 20 /\ p.id.gl[2] = 1} \cup {p \in cJsonEmpty : p.total <= 12}
+cJsonHandler == {p \in cJsonTwo : p.total <= 20 /\ p.id.gl[2] = 1} \cup {p \in cJsonEmpty : p.total <= 12} \cup {p \in cJsonHigh : Len(p.docs) = 2}
 JsonCuts(objs, gaps) == {MkJsonCut(objs, gaps, c) : c \in 1..(Len(gaps[1]) + Len(objs[1].chars) + Len(gaps[2]) + Len(objs[2].chars) + Len(gaps[3]))}
 cJsonCut == JsonCuts(<<O(<<"a">>, FALSE), O(<<"eb">>, FALSE)>>, <<<<>>, <<"\n">>, <<>>>>)
             \cup JsonCuts(<<O(<<"rb">>, TRUE), ON(<<"eq">>)>>, <<<<"\n">>, <<>>, <<"\n">>>>)
-cFileProfiles == cXmlCutThorough \cup cJsonCut \cup cXmlThorough \cup {p \in cJsonTwo : p.total <= 22} \cup cJsonEmpty
+cFileProfiles == cXmlCutThorough \cup cJsonCut \cup cXmlThorough \cup {p \in cJsonTwo : p.total <= 22} \cup cJsonEmpty \cup cJsonHigh
 cJsonThorough == cJsonOne \cup cJsonTwo \cup cJsonThree \cup cJsonEmpty
 
 \* the profiles alone (files: the schedule is the operating system's)
